@@ -35,6 +35,7 @@ Enc(v) == CASE v.k = "q" -> <<"q", v.n, v.d>>
             [] v.k = "bs" -> <<"bs", v.f, v.v, v.lo, v.hi, Enc(v.body)>>
             [] v.k = "let" -> <<"let", v.v, Enc(v.val), Enc(v.body)>>
             [] v.k = "rv" -> <<"rv", v.v>>
+            [] v.k = "memo" -> <<"memo", [i \in DOMAIN v.keys |-> EncI(v.keys[i])], Enc(v.body)>>
             [] v.k = "if" -> <<"if", EncI(v.a), EncI(v.b), Enc(v.t), Enc(v.e)>>
             [] v.k = "s" -> <<"s", v.t, v.i>>
             [] v.k = "c" -> <<"c", v.c>>
@@ -68,6 +69,14 @@ MkCase(fam, name, inputs, doms, code, outs, root, ties) ==
                               grads |-> [i \in DOMAIN bp.grads |-> [node |-> bp.grads[i].node, dims |-> bp.grads[i].dims,
                                                                    data |-> EncSeq(bp.grads[i].data)]],
                               nograd |-> bp.nograd]
+
+(* a call the specification rejects, made just before code instruction `at`: the program up to there is well-formed, *)
+(* the program extended by the call is not                                                                            *)
+Rejected(inputs, code, at, ins) ==
+  LET prefix == SubSeq(code, 1, at - 1)
+  IN IF WellFormed(inputs, prefix) /\ ~WellFormed(inputs, Append(prefix, ins))
+     THEN [at |-> at, ins |-> EncIns(ins)]
+     ELSE Assert(FALSE, <<"the specification does not reject", ins>>)
 
 (* MkCase plus, where back-propagation passes through an expansion with factor > 1, *)
 (* the gradients under the recorded deviation "broadcast_grad_mean" ("asis")        *)
